@@ -31,6 +31,7 @@ type sessOp struct {
 	WillDelay int    `json:"will,omitempty"`   // -2 no will, -1 will without delay property, >=0 delay seconds
 	T         int    `json:"t,omitempty"`
 	WithWill  bool   `json:"withwill,omitempty"`
+	NL        bool   `json:"nl,omitempty"` // sub: No Local (v5 only); the op "selfpub" publishes from the session itself
 	Ms        int    `json:"ms,omitempty"`
 	// C10: concurrent CONNECTs on one identifier (op "race"), optionally with the attached connection being
 	// dropped by its client at the same moment; and a CONNECT aimed at a timer deadline (At seconds after the
@@ -67,6 +68,7 @@ func (p *sessProp) Header() string {
 	return "From Coq Require Import List NArith ZArith.\nImport ListNotations.\nFrom VMQ Require Import model.Sessions chk.C05chk.\nOpen Scope Z_scope.\n"
 }
 func (p *sessProp) Parallel() int { return 24 }
+func (p *sessProp) Linger() time.Duration { return 2600 * time.Millisecond }
 func (p *sessProp) Gen(r *Rng, i int, tier string) interface{} { return p.gen(r, i, tier) }
 func (p *sessProp) Decode(raw json.RawMessage) (interface{}, error) {
 	c := &sessCase{}
@@ -383,7 +385,13 @@ func (p *sessProp) Run(ci interface{}) interface{} {
 				continue
 			}
 			n := a.CountOthers(mqttp.SUBACK)
-			sp := mkSubscribe(a.Ver, uint16(k+1), []string{fmt.Sprintf("t/%d", op.T)}, []byte{1})
+			sopts := byte(1)
+			nl := 0
+			if op.NL && a.Ver == mqttp.ProtocolV50 {
+				sopts |= 0x04
+				nl = 1
+			}
+			sp := mkSubscribe(a.Ver, uint16(k+1), []string{fmt.Sprintf("t/%d", op.T)}, []byte{sopts})
 			if a.Ver == mqttp.ProtocolV50 {
 				_ = sp.PropertySet(mqttp.PropertySubscriptionIdentifier, uint32(op.T+1))
 			}
@@ -402,7 +410,7 @@ func (p *sessProp) Run(ci interface{}) interface{} {
 			if !pingBarrier(a) { // the retained message of the topic has arrived
 				return fail("step %d: ping barrier", k)
 			}
-			r.emit(fmt.Sprintf("(ESubscribe %d%%N %d%%N)", op.ID, op.T), r.collect())
+			r.emit(fmt.Sprintf("(ESubscribe %d%%N %d%%N)", op.ID, op.T*2+nl), r.collect())
 		case "pub", "retain", "unretain":
 			pb := r.pub
 			if op.V5 {
@@ -443,6 +451,35 @@ func (p *sessProp) Run(ci interface{}) interface{} {
 			default:
 				r.emit(fmt.Sprintf("(EUnretain %d%%N)", op.T), r.collect())
 			}
+		case "selfpub":
+			a := r.cur[op.ID]
+			if a == nil || a.Closed() {
+				continue
+			}
+			n := a.CountOthers(mqttp.PUBACK)
+			_ = a.SendL(mkPublish(a.Ver, fmt.Sprintf("t/%d", op.T), []byte{byte(k + 1)}, 1, false, uint16(1000+k)))
+			if !a.WaitFor(5*time.Second, func() bool {
+				j := 0
+				for _, o := range a.Others {
+					if o.Type() == mqttp.PUBACK {
+						j++
+					}
+				}
+				return j > n
+			}) {
+				return fail("step %d: no puback for the session's own publish", k)
+			}
+			if !r.marker() {
+				return fail("step %d: marker", k)
+			}
+			for _, b := range r.cur {
+				if b != nil && !b.Closed() {
+					if !pingBarrier(b) {
+						return fail("step %d: ping barrier", k)
+					}
+				}
+			}
+			r.emit(fmt.Sprintf("(EPublishBy %d%%N %d%%N %d%%N)", op.ID, k+1, op.T), r.collect())
 		case "disc", "drop", "proto":
 			a := r.cur[op.ID]
 			if a == nil || a.Closed() {
